@@ -400,129 +400,13 @@ Proof.
 Qed.
 
 (* ------------------------------------------------------------------------------------------------------------- *)
-(* Part D.  The result depends on the SET of submodule entries only, provided no two files claim one module name *)
-
-(* two candidates of one name are the same file, or a regular module and its stubs *)
-Definition compat (l : list entry) : Prop :=
-  forall a b, In a l -> In b l -> is_pyi a = is_pyi b -> e_abs a = e_abs b.
-
-Definition pick_rel (l : list entry) (p : path) : Prop :=
-  (exists a, In a l /\ is_pyi a = false /\ e_abs a = p) \/
-  ((forall a, In a l -> is_pyi a = true) /\ exists a, In a l /\ e_abs a = p).
-
-Lemma compat_app_l : forall l1 l2, compat (l1 ++ l2) -> compat l1.
-Proof. intros l1 l2 H a b Ha Hb. apply H; apply in_or_app; auto. Qed.
-
-Lemma pickseq_sound : forall l p, compat l -> pickseq l = Some p -> pick_rel l p.
-Proof.
-  induction l as [|e l IH] using rev_ind; intros p Hc Hp.
-  - discriminate.
-  - rewrite pickseq_snoc in Hp. inversion Hp as [Hm]. clear Hp.
-    assert (Hin_e : In e (l ++ [e])) by (apply in_or_app; right; left; auto).
-    destruct (pickseq l) as [old|] eqn:Hold.
-    + specialize (IH old (compat_app_l _ _ Hc) eq_refl).
-      unfold merge_path.
-      destruct (path_eqb old (e_abs e)) eqn:Heq.
-      * apply path_eqb_eq in Heq.
-        destruct (is_pyi e) eqn:He.
-        -- right. split.
-           ++ intros a Ha. apply in_app_or in Ha. destruct Ha as [Ha|[Ha|[]]]; [|subst; auto].
-              destruct IH as [(b & Hb & Hbp & Hbo)|[Hall _]]; [|auto].
-              exfalso. unfold is_pyi in *. rewrite Hbo, Heq in Hbp. congruence.
-           ++ exists e. auto.
-        -- left. exists e. auto.
-      * destruct (path_suffix old =? ".pyi") eqn:Hop.
-        -- destruct IH as [(b & Hb & Hbp & Hbo)|[Hall (b & Hb & Hbo)]].
-           ++ exfalso. unfold is_pyi in Hbp. rewrite Hbo in Hbp. congruence.
-           ++ destruct (is_pyi e) eqn:He.
-              ** exfalso. assert (e_abs b = e_abs e).
-                 { apply Hc; auto. apply in_or_app; auto. rewrite He. auto. }
-                 assert (Hoe : old = e_abs e) by congruence. rewrite Hoe in Heq. rewrite path_eqb_refl in Heq. discriminate.
-              ** left. exists e. auto.
-        -- destruct IH as [(b & Hb & Hbp & Hbo)|[Hall (b & Hb & Hbo)]].
-           ++ destruct (path_suffix (e_abs e) =? ".pyi") eqn:He.
-              ** left. exists b. split; [apply in_or_app; auto|auto].
-              ** exfalso. assert (e_abs b = e_abs e).
-                 { apply Hc; auto. apply in_or_app; auto. unfold is_pyi. rewrite He. auto. }
-                 assert (Hoe : old = e_abs e) by congruence. rewrite Hoe in Heq. rewrite path_eqb_refl in Heq. discriminate.
-           ++ exfalso. specialize (Hall b Hb). unfold is_pyi in Hall. rewrite Hbo in Hall. congruence.
-    + apply pickseq_nil_iff in Hold. subst l. simpl in *.
-      destruct (is_pyi e) eqn:He.
-      * right. split. intros a [Ha|[]]; subst; auto. exists e. auto.
-      * left. exists e. auto.
-Qed.
-
-Lemma pick_rel_fun : forall l p q, compat l -> pick_rel l p -> pick_rel l q -> p = q.
-Proof.
-  intros l p q Hc [(a & Ha & Hap & Hao)|[Hall (a & Ha & Hao)]] [(b & Hb & Hbp & Hbo)|[Hall' (b & Hb & Hbo)]].
-  - subst. apply Hc; auto. congruence.
-  - specialize (Hall' a Ha). congruence.
-  - specialize (Hall b Hb). congruence.
-  - subst. apply Hc; auto. rewrite Hall, Hall'; auto.
-Qed.
-
-Lemma pick_rel_same : forall l1 l2 p, (forall x, In x l1 <-> In x l2) -> pick_rel l1 p -> pick_rel l2 p.
-Proof.
-  intros l1 l2 p H [(a & Ha & Hap & Hao)|[Hall (a & Ha & Hao)]].
-  - left. exists a. split; auto. apply H; auto.
-  - right. split. intros b Hb. apply Hall. apply H; auto. exists a. split; auto. apply H; auto.
-Qed.
-
-Lemma pickseq_same : forall l1 l2, compat l1 -> (forall x, In x l1 <-> In x l2) -> pickseq l1 = pickseq l2.
-Proof.
-  intros l1 l2 Hc H.
-  assert (Hc2 : compat l2) by (intros a b Ha Hb; apply Hc; apply H; auto).
-  destruct (pickseq l1) as [p|] eqn:P1; destruct (pickseq l2) as [q|] eqn:P2; auto.
-  - f_equal. apply (pick_rel_fun l2); auto.
-    + apply (pick_rel_same l1); auto. apply pickseq_sound; auto.
-    + apply pickseq_sound; auto.
-  - apply pickseq_nil_iff in P2. subst l2. destruct l1 as [|a r]; [discriminate|].
-    exfalso. apply (H a). left; auto.
-  - apply pickseq_nil_iff in P1. subst l1. destruct l2 as [|a r]; [discriminate|].
-    exfalso. apply (H a). left; auto.
-Qed.
-
-Definition same_elems (E1 E2 : list entry) : Prop := forall x, In x E1 <-> In x E2.
-
-Definition no_clash (E : list entry) : Prop :=
-  forall a b, In a E -> In b E -> entry_ok a = true -> entry_ok b = true -> e_parts a = e_parts b ->
-              is_pyi a = is_pyi b -> e_abs a = e_abs b.
-
-Lemma pick_same_elems : forall E1 E2 q, same_elems E1 E2 -> no_clash E1 ->
-  pickseq (cands q E1) = pickseq (cands q E2).
-Proof.
-  intros E1 E2 q Hs Hn. apply pickseq_same.
-  - intros x y Hx Hy Hp. unfold cands in Hx, Hy. apply filter_In in Hx, Hy.
-    destruct Hx as [Hx Hcx], Hy as [Hy Hcy]. unfold cand in Hcx, Hcy.
-    apply andb_true_iff in Hcx, Hcy. destruct Hcx as [Px Ox], Hcy as [Py Oy].
-    apply lstr_eqb_eq in Px, Py. apply Hn; auto. congruence.
-  - intro x. unfold cands. rewrite !filter_In. split; intros [Hx Hc]; split; auto; apply Hs; auto.
-Qed.
+(* Part D.  The characterisation only looks at the merge of the candidates of each name; the depth sort *)
 
 Lemma chain_pick_ext : forall E1 E2, (forall q, pickseq (cands q E1) = pickseq (cands q E2)) ->
   forall todo cur, chain E1 cur todo = chain E2 cur todo.
 Proof.
   intros E1 E2 H. induction todo as [|p r IH]; intros cur; simpl; auto.
   unfold init_at. rewrite H, IH. reflexivity.
-Qed.
-
-Theorem spec_order_invariant : forall top E1 E2,
-  same_elems E1 E2 -> no_clash E1 -> forall k, spec_lookup top E1 k = spec_lookup top E2 k.
-Proof.
-  intros top E1 E2 Hs Hn k. destruct k as [|a r]; auto. unfold spec_lookup.
-  rewrite (chain_pick_ext E1 E2) by (intro; apply pick_same_elems; auto).
-  rewrite (pick_same_elems E1 E2); auto.
-Qed.
-
-Theorem run_order_invariant : forall top E1 E2,
-  sorted E1 -> sorted E2 -> (forall e, In e E1 -> e_parts e <> []) ->
-  same_elems E1 E2 -> no_clash E1 ->
-  forall k, lookup_m k (run top E1) = lookup_m k (run top E2).
-Proof.
-  intros top E1 E2 S1 S2 Hne Hs Hn k.
-  destruct (run_spec top E1 S1 Hne) as [_ H1].
-  destruct (run_spec top E2 S2) as [_ H2]. { intros e He. apply Hne. apply Hs. auto. }
-  rewrite H1, H2. apply spec_order_invariant; auto.
 Qed.
 
 (* depth_sort: sorted, same elements *)
@@ -824,20 +708,14 @@ Qed.
 Lemma yields_parts_nonempty : forall base rel e, rel <> [] -> yields base rel e -> e_parts e <> [].
 Proof.
   intros base rel e Hrel Hy. unfold yields, name_to_yield in Hy.
-  set (stem := if pl_suffix (last rel "") =? ".py" then pl_stem (last rel "") else before_first_dot (pl_stem (last rel ""))) in *.
+  set (py := (pl_suffix (last rel "") =? ".py") || (pl_suffix (last rel "") =? ".pyi")) in *.
+  set (stem := if py then pl_stem (last rel "") else before_first_dot (pl_stem (last rel ""))) in *.
   destruct (stem =? "__init__").
   - destruct (List.length rel =? 1)%nat eqn:El; [contradiction|]. subst e. simpl.
     destruct rel as [|a [|b r]]; try congruence. simpl in El. discriminate. simpl. discriminate.
-  - destruct (pl_suffix (last rel "") =? ".py").
+  - destruct py.
     + subst e. simpl. destruct (removelast rel); discriminate.
     + destruct (stem =? ""); [contradiction|]. subst e. simpl. destruct (removelast rel); discriminate.
-Qed.
-
-Lemma no_clashb_sound : forall E, no_clashb E = true -> no_clash E.
-Proof.
-  intros E H a b Ha Hb Oa Ob Hp Hi. unfold no_clashb in H. rewrite forallb_forall in H.
-  specialize (H a Ha). rewrite forallb_forall in H. specialize (H b Hb).
-  rewrite Oa, Ob, Hp, lstr_eqb_refl, Hi, Bool.eqb_reflx in H. simpl in H. apply path_eqb_eq. auto.
 Qed.
 
 Definition same_tree (a b : loaded) : Prop :=
@@ -847,37 +725,6 @@ Definition same_tree (a b : loaded) : Prop :=
   | LNotFound, LNotFound => True
   | _, _ => False
   end.
-
-Theorem listing_order_invariant_regular :
-  forall U U' p st,
-  perm_universe U U' -> wf_universe U ->
-  (forall es, iter_regular U p = Ok es -> no_clash es) ->
-  same_tree (load_found false U (FPkg p st)) (load_found false U' (FPkg p st)).
-Proof.
-  intros U U' p st Hp Hw Hnc. unfold load_found.
-  pose proof (node_at_perm U U' p Hp Hw) as Hn.
-  destruct (node_at U p) as [[a b|l]|]; destruct (node_at U' p) as [y|]; simpl in Hn; try tauto;
-    try (apply perm_node_file_inv in Hn; subst y); try (apply perm_node_dir_inv in Hn; destruct Hn as (l' & -> & _));
-    simpl; auto.
-  unfold iter_regular in *. destruct (start_dir p) as [d|]; simpl.
-  - pose proof (portion_files_perm U U' d Hp Hw) as Hf.
-    pose proof (iter_files_noskip d (portion_files U d) []) as H1.
-    pose proof (iter_files_noskip d (portion_files U' d) []) as H2.
-    destruct (iter_files d [] (portion_files U d) []) as [[es s]|x]; [|contradiction].
-    destruct (iter_files d [] (portion_files U' d) []) as [[es' s']|x']; [|contradiction].
-    simpl.
-    assert (Hse : same_elems es es').
-    { intro e. rewrite H1, H2. split; intros (rel & Hr & Hy); exists rel; split; auto; apply Hf; auto. }
-    apply (run_order_invariant p (depth_sort es) (depth_sort es')).
-    * apply depth_sort_sorted.
-    * apply depth_sort_sorted.
-    * intros e He. apply (proj1 (depth_sort_In _ _)) in He. apply (proj1 (H1 e)) in He. destruct He as (rel & Hr & Hy).
-      eapply yields_parts_nonempty; eauto. unfold portion_files in Hr.
-      destruct (node_at U d); [|contradiction]. eapply walk_nonempty; eauto.
-    * intro e. rewrite !depth_sort_In. apply Hse.
-    * specialize (Hnc es eq_refl). intros x y Hx Hy. apply (proj1 (depth_sort_In _ _)) in Hx. apply (proj1 (depth_sort_In _ _)) in Hy. apply Hnc; auto.
-  - simpl. intro k. auto.
-Qed.
 
 (* find_package only looks names up: it does not depend on the listing order *)
 Definition regular_init_of (inner : listing) : bool :=
@@ -964,22 +811,6 @@ Proof.
   - apply root_wf; auto.
 Qed.
 
-(* the whole static load of a regular package, search paths given *)
-Theorem load_order_invariant_regular :
-  forall U U' name paths,
-  perm_universe U U' -> wf_universe U ->
-  (forall p st es, g_find U name paths [] = FPkg p st -> iter_regular U p = Ok es -> no_clash es) ->
-  (forall ds, g_find U name paths [] <> FNs ds) ->
-  same_tree (load_found false U (g_find U name paths [])) (load_found false U' (g_find U' name paths [])).
-Proof.
-  intros U U' name paths Hp Hw Hnc Hns.
-  rewrite <- (find_order_invariant U U' name paths [] Hp Hw).
-  destruct (g_find U name paths []) as [p st|ds|] eqn:Ef.
-  - apply listing_order_invariant_regular; auto. intros es He. eapply Hnc; eauto.
-  - exfalso. eapply Hns; eauto.
-  - simpl. auto.
-Qed.
-
 (* ------------------------------------------------------------------------------------------------------------- *)
 (* Part F.  The full statements, their refutations on the unchanged code (one witness per finding), non-vacuity *)
 
@@ -1010,18 +841,18 @@ Example loaded_importable_repaired_F1 : loaded_importable U_F1 [0] "aa" = true /
   exists M, load false U_F1 [0] "aa" = LOk M /\ lookup_m ["bar"; "inner"] M = None /\ lookup_m ["bar"] M = Some (MFile (0, ["aa"; "bar.py"])).
 Proof. split. vm_compute; reflexivity. eexists. split. vm_compute; reflexivity. split; vm_compute; reflexivity. Qed.
 
-(* F3, F8, F10: namespace packages over two portions (F9 repaired) *)
+(* F3, F8, F10 repaired (and F9): namespace packages over two portions; the former witnesses are importable now *)
 Definition U_F3 : universe :=
   [(0, [("aa", Dir [("sub", pkg [("a.py", F0)])])]);
    (1, [("aa", Dir [("sub", Dir [("x.py", F0); ("other", pkg [("z.py", F0)])])])])].
-Lemma namespace_first_portion_wins_refuted_F3 :
-  exists U sps name, gaps U sps name = ["F3"] /\ loaded_importable U sps name = false.
-Proof. exists U_F3, [0; 1], "aa". split; vm_compute; reflexivity. Qed.
+Example namespace_shadow_repaired_F3 : loaded_importable U_F3 [0; 1] "aa" = true /\
+  exists M, load false U_F3 [0; 1] "aa" = LOk M /\ lookup_m ["sub"; "other"] M = None /\ lookup_m ["sub"; "a"] M = Some (MFile (0, ["aa"; "sub"; "a.py"])).
+Proof. split. vm_compute; reflexivity. eexists. split. vm_compute; reflexivity. split; vm_compute; reflexivity. Qed.
 
 Definition U_F8 : universe := [(0, [("aa", Dir [("n.py", F0); ("x.py", F0)])]); (1, [("aa", Dir [("n.py", F0)])])].
-Lemma namespace_first_portion_wins_refuted_F8 :
-  exists U sps name, gaps U sps name = ["F8"] /\ loaded_importable U sps name = false.
-Proof. exists U_F8, [0; 1], "aa". split; vm_compute; reflexivity. Qed.
+Example namespace_first_portion_wins_repaired_F8 : loaded_importable U_F8 [0; 1] "aa" = true /\
+  exists M, load false U_F8 [0; 1] "aa" = LOk M /\ lookup_m ["n"] M = Some (MFile (0, ["aa"; "n.py"])).
+Proof. split. vm_compute; reflexivity. eexists. split; vm_compute; reflexivity. Qed.
 
 Definition U_F9 : universe :=
   [(0, [("aa", Dir [("sub", Dir [("deep", Dir [(("__init__" ++ ext_suffix)%string, F0)])])])]);
@@ -1032,9 +863,20 @@ Proof. split. vm_compute; reflexivity. eexists. split; vm_compute; reflexivity. 
 
 Definition U_F10 : universe :=
   [(0, [("aa", Dir [("sub", Dir [("early.py", F0)])])]); (1, [("aa", Dir [("sub", pkg [("late.py", F0)])])])].
-Lemma namespace_first_portion_wins_refuted_F10 :
-  exists U sps name, gaps U sps name = ["F10"] /\ loaded_importable U sps name = false.
-Proof. exists U_F10, [0; 1], "aa". split; vm_compute; reflexivity. Qed.
+Example namespace_shadow_repaired_F10 : loaded_importable U_F10 [0; 1] "aa" = true /\
+  exists M, load false U_F10 [0; 1] "aa" = LOk M /\ lookup_m ["sub"; "early"] M = None /\
+            lookup_m ["sub"; "late"] M = Some (MFile (1, ["aa"; "sub"; "late.py"])).
+Proof. split. vm_compute; reflexivity. eexists. split. vm_compute; reflexivity. split; vm_compute; reflexivity. Qed.
+
+(* the provider of a folder is decided top-down: a deep regular package of an earlier portion does not hide the same
+   folder of the later portion that provides the regular package above it *)
+Definition U_topdown : universe :=
+  [(0, [("aa", Dir [("sub", Dir [("deep", pkg [("a.py", F0)])])])]);
+   (1, [("aa", Dir [("sub", pkg [("deep", pkg [("x.py", F0)])])])])].
+Example namespace_provider_topdown : loaded_importable U_topdown [0; 1] "aa" = true /\
+  exists M, load false U_topdown [0; 1] "aa" = LOk M /\ lookup_m ["sub"; "deep"; "a"] M = None /\
+            lookup_m ["sub"; "deep"; "x"] M = Some (MFile (1, ["aa"; "sub"; "deep"; "x.py"])).
+Proof. split. vm_compute; reflexivity. eexists. split. vm_compute; reflexivity. split; vm_compute; reflexivity. Qed.
 
 (* F4 repaired: a dot-file with a module extension is skipped *)
 Definition U_F4 : universe := [(0, [("aa", pkg [("m.py", F0); (".x.pyi", F0)])])].
@@ -1042,37 +884,21 @@ Example load_total_repaired_F4 :
   exists M, load false U_F4 [0] "aa" = LOk M /\ lookup_m ["m"] M = Some (MFile (0, ["aa"; "m.py"])) /\ loaded_importable U_F4 [0] "aa" = true.
 Proof. eexists. split. vm_compute; reflexivity. split; vm_compute; reflexivity. Qed.
 
-(* F5: listing order decides between two stub files of one name *)
+(* F5 repaired: r.x.pyi is not the stubs of r any more; both listing orders load r.pyi *)
 Definition U_F5a : universe := [(0, [("aa", pkg [("r.pyi", F0); ("r.x.pyi", F0)])])].
 Definition U_F5b : universe := [(0, [("aa", pkg [("r.x.pyi", F0); ("r.pyi", F0)])])].
-Lemma perm_F5 : perm_universe U_F5a U_F5b.
-Proof.
-  constructor; [|constructor]. split; auto. simpl.
-  apply PL_cons; [|apply PL_refl]. apply PN_dir. apply PL_cons. apply PN_refl. apply PL_swap.
-Qed.
-Lemma wf_F5 : wf_universe U_F5a.
-Proof.
-  intros i l [H|[]]. inversion H; subst. clear H.
-  constructor. repeat constructor; simpl; tauto.
-  intros n x [H|[]]. inversion H; subst. constructor.
-  repeat constructor; simpl; intuition discriminate.
-  intros n' x' G. simpl in G. destruct G as [G|[G|[G|[]]]]; inversion G; subst; constructor.
-Qed.
-Lemma listing_order_refuted_F5 :
-  exists U U' sps name, perm_universe U U' /\ wf_universe U /\ any_listing gapL_F5 U = true /\
-                        ~ same_tree (load false U sps name) (load false U' sps name).
-Proof.
-  exists U_F5a, U_F5b, [0], "aa". split; [apply perm_F5|]. split; [apply wf_F5|]. split; [vm_compute; reflexivity|].
-  vm_compute. intro H. specialize (H ["r"]). vm_compute in H. discriminate.
-Qed.
+Example listing_order_repaired_F5 :
+  same_tree (load false U_F5a [0] "aa") (load false U_F5b [0] "aa") /\
+  exists M, load false U_F5b [0] "aa" = LOk M /\ lookup_m ["r"] M = Some (MFile (0, ["aa"; "r.pyi"])).
+Proof. split. vm_compute. intro k. reflexivity. eexists. split; vm_compute; reflexivity. Qed.
 
-(* F6, F7: .pth handling (F2 repaired: sorted order) *)
+(* .pth handling (F2 repaired: sorted order; F7 repaired: not transitive; F6 repaired for lines relative to the .pth file) *)
 Definition pkgdir (m : string) : listing := [("aa", pkg [(m, F0)])].
 Definition U_F2a : universe := [(0, [("a.pth", File false [(false, 2)]); ("b.pth", File false [(false, 1)])]); (1, pkgdir "one.py"); (2, pkgdir "two.py")].
 Definition U_F2b : universe := [(0, [("b.pth", File false [(false, 1)]); ("a.pth", File false [(false, 2)])]); (1, pkgdir "one.py"); (2, pkgdir "two.py")].
 Example paths_order_repaired_F2 :
   perm_universe U_F2a U_F2b /\
-  g_paths U_F2a [0] = Some [0; 2; 1] /\ g_paths U_F2b [0] = Some [0; 2; 1] /\ py_paths U_F2b [0] = [0; 2; 1] /\
+  g_paths U_F2a [0] = [0; 2; 1] /\ g_paths U_F2b [0] = [0; 2; 1] /\ py_paths U_F2b [0] = [0; 2; 1] /\
   same_tree (load false U_F2a [0] "aa") (load false U_F2b [0] "aa").
 Proof.
   split. { constructor. split; auto. simpl. apply PL_swap. constructor. split; auto. apply PL_refl.
@@ -1081,12 +907,13 @@ Proof.
   vm_compute. intro k. reflexivity.
 Qed.
 
+(* what is left of F6: a line that exists relative to the current directory only is still added (site ignores it) *)
 Definition U_F6 : universe := [(0, [("a.pth", File false [(true, 1)])]); (1, pkgdir "m.py")].
-Lemma paths_eq_refuted_F6 : gapU_F6 U_F6 = true /\ g_paths U_F6 [0] = Some [0] /\ py_paths U_F6 [0] = [0; 1].
+Lemma paths_eq_refuted_F6 : gapU_F6 U_F6 = true /\ g_paths U_F6 [0] = [0; 1] /\ py_paths U_F6 [0] = [0].
 Proof. repeat split; vm_compute; reflexivity. Qed.
 
 Definition U_F7 : universe := [(0, [("a.pth", File false [(false, 1)])]); (1, [("b.pth", File false [(false, 2)])]); (2, pkgdir "m.py")].
-Lemma paths_eq_refuted_F7 : gapU_F7 U_F7 = true /\ g_paths U_F7 [0] = Some [0; 1; 2] /\ py_paths U_F7 [0] = [0; 1].
+Example paths_not_transitive_repaired_F7 : g_paths U_F7 [0] = [0; 1] /\ py_paths U_F7 [0] = [0; 1].
 Proof. repeat split; vm_compute; reflexivity. Qed.
 
 (* the finder precedence theorem needs its hypotheses: compiled top-level module, stub-only package, pkgutil namespace *)
@@ -1113,9 +940,6 @@ Example find_example : g_find U_ok "aa" [0; 1] [] = FPkg (1, ["aa"; "__init__.py
 Proof. split. vm_compute. reflexivity. eexists. vm_compute. reflexivity. Qed.
 Definition U_ok2 : universe :=
   [(1, [("aa", pkg [("m.py", F0); ("m.pyi", F0); ("sub", pkg [("x.py", F0); ("__init__.pyi", F0)]); ("noinit", Dir [("y.py", F0)]); ("n", pkg [])])])].
-Example no_clash_example :
-  match iter_regular U_ok2 (1, ["aa"; "__init__.py"]) with Ok es => no_clashb es = true /\ List.length es = 7 | Err _ => False end.
-Proof. vm_compute. auto. Qed.
 Example loaded_example :
   exists M, load false U_ok [0; 1] "aa" = LOk M /\
             lookup_m ["m"] M = Some (MFile (1, ["aa"; "m.py"])) /\
@@ -1126,7 +950,7 @@ Example loaded_example :
 Proof. eexists. split. vm_compute. reflexivity. repeat split; vm_compute; reflexivity. Qed.
 
 (* ------------------------------------------------------------------------------------------------------------- *)
-(* Part G.  The .pth loop runs over the list it extends: the fuel g_paths passes always suffices *)
+(* Part G.  Totality *)
 
 Lemma mem_nat_In : forall x l, mem_nat x l = true <-> In x l.
 Proof.
@@ -1149,774 +973,13 @@ Proof.
         -- destruct (H2 x Hx) as [Hr Hn]. split; auto. intro Hk. apply Hn. apply in_or_app. auto.
 Qed.
 
-Lemma NoDup_app_disj : forall (l1 l2 : list nat),
-  NoDup l1 -> NoDup l2 -> (forall x, In x l2 -> ~ In x l1) -> NoDup (l1 ++ l2).
-Proof.
-  induction l1 as [|a r IH]; intros l2 H1 H2 Hd; simpl; auto.
-  inversion H1; subst. constructor.
-  - intro Ha. apply in_app_or in Ha. destruct Ha as [Ha|Ha]; auto. apply (Hd a Ha). left; auto.
-  - apply IH; auto. intros x Hx Hr. apply (Hd x Hx). right; auto.
-Qed.
-
-Definition all_targets (U : universe) : list nat := flat_map (fun il : nat * listing => pth_targets_griffe (snd il)) U.
-
-Lemma total_pth_lines_length : forall U, total_pth_lines U = List.length (all_targets U).
-Proof.
-  induction U as [|[i l] r IH]; simpl; auto. unfold total_pth_lines in *. simpl. rewrite app_length. rewrite IH. auto.
-Qed.
-
-Lemma root_targets_incl : forall U p, incl (pth_targets_griffe (root U p)) (all_targets U).
-Proof.
-  intros U p x Hx. unfold root in Hx. destruct (lookup_nat p U) as [l|] eqn:E.
-  - apply lookup_nat_In in E. unfold all_targets. apply in_flat_map. exists (p, l). auto.
-  - simpl in Hx. contradiction.
-Qed.
-
-Lemma g_paths_loop_fuel : forall U S f done todo,
-  incl (all_targets U) S ->
-  NoDup (done ++ todo) -> incl (done ++ todo) S -> List.length S + 1 <= f + List.length done ->
-  g_paths_loop f U done todo <> None.
-Proof.
-  intros U S f. induction f as [|f IH]; intros done todo HS Hnd Hin Hf.
-  - destruct todo as [|p r]; simpl. discriminate.
-    exfalso. pose proof (NoDup_incl_length Hnd Hin) as Hl. rewrite app_length in Hl. simpl in *. lia.
-  - destruct todo as [|p r]; simpl. discriminate.
-    destruct (add_new_spec (pth_targets_griffe (root U p)) (done ++ p :: r)) as [Hn1 Hn2].
-    apply IH; auto.
-    + rewrite <- app_assoc. simpl. rewrite app_comm_cons. rewrite app_assoc.
-      apply NoDup_app_disj; auto. intros x Hx. destruct (Hn2 x Hx). auto.
-    + rewrite <- app_assoc. simpl. rewrite app_comm_cons. rewrite app_assoc.
-      apply incl_app; auto. intros x Hx. destruct (Hn2 x Hx) as [Hx' _].
-      apply HS. eapply root_targets_incl; eauto.
-    + rewrite app_length. simpl. lia.
-Qed.
-
-Theorem g_paths_fuel_sufficient : forall U sps, g_paths U sps <> None.
-Proof.
-  intros U sps. unfold g_paths.
-  destruct (add_new_spec sps []) as [Hn _].
-  apply (g_paths_loop_fuel U (add_new sps [] ++ all_targets U)).
-  - apply incl_appr. apply incl_refl.
-  - simpl. auto.
-  - simpl. apply incl_appl. apply incl_refl.
-  - rewrite app_length, total_pth_lines_length. simpl. lia.
-Qed.
-
-Lemma iter_portions_total : forall U ds seen, exists es, iter_portions U ds seen = Ok es.
-Proof.
-  induction ds as [|d r IH]; intros seen; simpl. eauto.
-  destruct (start_dir d) as [d'|]; [|apply IH].
-  destruct (iter_files_total d' seen (portion_files U d') seen) as (es & s & ->).
-  destruct (IH s) as (es' & ->). eauto.
-Qed.
-
 (* Static loading is total: the only error left is reading a directory that is called like the package's module file *)
 Theorem load_total : forall insp U sps name e, load insp U sps name = LErr e -> e = "LoadingError".
 Proof.
-  intros insp U sps name e. unfold load. pose proof (g_paths_fuel_sufficient U sps) as H.
-  destruct (g_paths U sps) as [ps|]; [|congruence].
-  unfold load_found. destruct (g_find U name ps []) as [p st|ds|]; try discriminate.
-  - destruct (node_at U p) as [[a b|l]|]; try (intro H0; inversion H0; reflexivity).
-    unfold iter_regular. destruct (start_dir p) as [d|]; try discriminate.
-    destruct (iter_files_total d [] (portion_files U d) []) as (es & s & ->). discriminate.
-  - destruct (iter_portions_total U ds []) as (es & ->). discriminate.
+  intros insp U sps name e. unfold load.
+  unfold load_found. destruct (g_find U name (g_paths U sps) []) as [p st|ds|]; try discriminate.
+  destruct (node_at U p) as [[a b|l]|]; try (intro H0; inversion H0; reflexivity).
+  unfold iter_regular. destruct (start_dir p) as [d|]; try discriminate.
+  destruct (iter_files_total d [] (portion_files U d) []) as (es & s & ->). discriminate.
 Qed.
 
-Corollary load_never_out_of_fuel : forall insp U sps name, load insp U sps name <> LErr "OutOfFuel".
-Proof. intros insp U sps name H. apply load_total in H. discriminate. Qed.
-
-(* ------------------------------------------------------------------------------------------------------------- *)
-(* Part H.  Regular packages: every loaded module is importable by CPython from that file, or is stub-only --
-   modulo the shape of finding F1 and on source-form layouts *)
-
-(* strings *)
-Lemma split_last_dot_app : forall s a b, split_last_dot s = Some (a, b) -> s = (a ++ b)%string.
-Proof.
-  induction s as [|c r IH]; simpl; intros a b H. discriminate.
-  destruct (split_last_dot r) as [[a' b']|] eqn:E.
-  - inversion H; subst. simpl. f_equal. apply IH. auto.
-  - destruct (is_dot c); inversion H; subst. reflexivity.
-Qed.
-
-Lemma pl_split_app : forall s, (pl_stem s ++ pl_suffix s)%string = s.
-Proof.
-  intros s. unfold pl_stem, pl_suffix, pl_split.
-  destruct (split_last_dot s) as [[a b]|] eqn:E.
-  - destruct (negb (a =? "") && (2 <=? String.length b)%nat); simpl.
-    + symmetry. apply split_last_dot_app. auto.
-    + clear. induction s; simpl; auto. f_equal. auto.
-  - simpl. clear. induction s; simpl; auto. f_equal. auto.
-Qed.
-
-Lemma split_last_dot_py : forall m, split_last_dot (m ++ ".py")%string = Some (m, ".py").
-Proof. induction m as [|c r IH]; simpl. reflexivity. rewrite IH. reflexivity. Qed.
-
-Lemma pl_split_py : forall m, m <> "" -> pl_split (m ++ ".py")%string = (m, ".py").
-Proof.
-  intros m Hm. unfold pl_split. rewrite split_last_dot_py.
-  destruct (m =? "") eqn:E. apply String.eqb_eq in E. contradiction. reflexivity.
-Qed.
-
-Lemma all_dots_has_dot : forall m, m <> "" -> has_dot m = false -> all_dots m = false.
-Proof. destruct m as [|c r]; simpl; intros H1 H2. contradiction. apply orb_false_iff in H2. destruct H2 as [-> _]. reflexivity. Qed.
-
-Lemma os_ext_py : forall m, m <> "" -> has_dot m = false -> os_ext (m ++ ".py")%string = ".py".
-Proof. intros m H1 H2. unfold os_ext. rewrite split_last_dot_py. rewrite all_dots_has_dot; auto. Qed.
-
-(* navigation *)
-Lemma get_node_snoc : forall q l c,
-  get_node l (q ++ [c]) =
-    match get_node l q with
-    | Some (Dir lq) => lookup_entry c lq
-    | _ => None
-    end.
-Proof.
-  induction q as [|a r IH]; intros l c; simpl.
-  - destruct (lookup_entry c l) as [[ns pth|l']|]; auto.
-  - destruct (lookup_entry a l) as [[ns pth|l']|] eqn:E.
-    + destruct r; simpl; auto.
-    + apply IH.
-    + reflexivity.
-Qed.
-
-Lemma lookup_entry_In_iff : forall l n x, NoDup (map fst l) -> (lookup_entry n l = Some x <-> In (n, x) l).
-Proof.
-  induction l as [|[k v] r IH]; simpl; intros n x Hnd. split; [discriminate|tauto].
-  inversion Hnd; subst. destruct (k =? n) eqn:E.
-  - apply String.eqb_eq in E. subst. split.
-    + intro H. inversion H; auto.
-    + intros [H|H]. inversion H; auto. exfalso. apply H1. apply (in_map fst) in H. auto.
-  - rewrite IH by auto. split; auto. intros [H|H]; auto. inversion H; subst. rewrite String.eqb_refl in E. discriminate.
-Qed.
-
-(* os.walk as path resolution: r is yielded iff it is q ++ [fn] where q leads through directories (none called
-   __pycache__) to a directory that holds the accepted file fn *)
-Definition reaches (L : listing) (q : list string) (Lq : listing) : Prop :=
-  get_node L q = Some (Dir Lq) /\ ~ In "__pycache__" q.
-
-Definition deep_nodup (L : listing) : Prop := forall q Lq, get_node L q = Some (Dir Lq) -> NoDup (map fst Lq).
-
-Lemma deep_nodup_sub : forall L n inner, deep_nodup L -> lookup_entry n L = Some (Dir inner) -> deep_nodup inner.
-Proof.
-  intros L n inner H Hl q Lq Hq. apply (H (n :: q)). simpl. rewrite Hl. auto.
-Qed.
-
-Lemma walk_resolves : forall nd pre r, match nd with Dir L => deep_nodup L | _ => True end ->
-  (In r (walk pre nd) <->
-   match nd with
-   | File _ _ => False
-   | Dir L => exists q fn Lq, r = pre ++ q ++ [fn] /\ reaches L q Lq /\ has_file fn Lq = true /\ accepted fn = true
-   end).
-Proof.
-  induction nd as [a b|es IH] using node_ind'; intros pre r Hdn. simpl. tauto.
-  rewrite walk_dir_in. split.
-  - intros ([nm x] & He & Hr). unfold contrib in Hr. simpl in Hr. apply in_app_or in Hr. destruct Hr as [Hr|Hr].
-    + destruct (is_file x && accepted nm) eqn:E; simpl in Hr; [|contradiction]. destruct Hr as [<-|[]].
-      apply andb_true_iff in E. destruct E as [E1 E2].
-      exists [], nm, es. split; auto. split. split; simpl; auto. split; auto.
-      unfold has_file. pose proof (Hdn [] es eq_refl) as Hnd.
-      apply (proj2 (lookup_entry_In_iff es nm x Hnd)) in He. rewrite He. destruct x; simpl in *; congruence.
-    + destruct x as [a b|es']; [contradiction|]. destruct (nm =? "__pycache__") eqn:Epc; [contradiction|].
-      pose proof (Hdn [] es eq_refl) as Hnd.
-      pose proof (proj2 (lookup_entry_In_iff es nm (Dir es') Hnd) He) as Hl.
-      apply (IH nm (Dir es') He (pre ++ [nm]) r (deep_nodup_sub es nm es' Hdn Hl)) in Hr.
-      destruct Hr as (q & fn & Lq & -> & [Hg Hpc] & Hf & Ha).
-      exists (nm :: q), fn, Lq. split. rewrite <- app_assoc. reflexivity.
-      split; auto. split. simpl. rewrite Hl. auto.
-      intros [H|H]; auto. subst. rewrite String.eqb_refl in Epc. discriminate.
-  - intros (q & fn & Lq & -> & [Hg Hpc] & Hf & Ha).
-    pose proof (Hdn [] es eq_refl) as Hnd.
-    destruct q as [|nm q].
-    + simpl in Hg. inversion Hg; subst Lq. unfold has_file in Hf.
-      destruct (lookup_entry fn es) as [[a b|?]|] eqn:E; try discriminate.
-      exists (fn, File a b). split. apply lookup_entry_In_iff; auto.
-      unfold contrib. simpl. rewrite Ha. simpl. auto.
-    + simpl in Hg. destruct (lookup_entry nm es) as [[a b|es']|] eqn:E; try discriminate.
-      { destruct q; discriminate. }
-      exists (nm, Dir es'). split. apply lookup_entry_In_iff; auto.
-      unfold contrib. cbn [fst snd is_file andb app].
-      destruct (nm =? "__pycache__") eqn:Epc. apply String.eqb_eq in Epc. exfalso. apply Hpc. left. auto.
-      apply (IH nm (Dir es') (proj1 (lookup_entry_In_iff es nm (Dir es') Hnd) E) (pre ++ [nm])).
-      eapply deep_nodup_sub; eauto.
-      exists q, fn, Lq. split. rewrite <- app_assoc. reflexivity.
-      split; auto. split; auto. intro H. apply Hpc. right. auto.
-Qed.
-
-Lemma get_node_app_dir : forall a l la b, get_node l a = Some (Dir la) -> get_node l (a ++ b) = get_node la b.
-Proof.
-  induction a as [|c r IH]; intros l la b H; simpl in *.
-  - inversion H; subst. reflexivity.
-  - destruct (lookup_entry c l) as [[ns pth|l']|] eqn:E; try discriminate.
-    + destruct r; discriminate.
-    + eapply IH; eauto.
-Qed.
-
-Lemma first_file_with_src : forall n L,
-  (forall s, In s compiled_suffixes -> has_file (n ++ s)%string L = false) ->
-  first_file_with n py_suffixes L = if has_file (n ++ ".py")%string L then Some (n ++ ".py")%string else None.
-Proof.
-  intros n L H. simpl.
-  rewrite (H ext_suffix), (H ".abi3.so"), (H ".so"), (H ".pyc") by (simpl; auto 6). reflexivity.
-Qed.
-
-Lemma is_proper_prefix_app : forall (a b : list string), b <> [] -> is_proper_prefix a (a ++ b) = true.
-Proof.
-  induction a as [|x r IH]; intros b Hb; simpl.
-  - destruct b; congruence.
-  - rewrite String.eqb_refl. simpl. apply IH. auto.
-Qed.
-
-Section Importable.
-  Variable U : universe.
-  Variable D : path.
-  Variable L0 : listing.
-  Hypothesis HD : listing_at U D = Some L0.
-  Hypothesis Hdn : deep_nodup L0.
-  (* source-form package tree: no compiled file names, no pkgutil-style declaration *)
-  Hypothesis Hsrc : forall q Lq, get_node L0 q = Some (Dir Lq) ->
-    (forall n s, In s compiled_suffixes -> has_file (n ++ s)%string Lq = false) /\
-    (forall ns pth, lookup_entry "__init__.py" Lq = Some (File ns pth) -> ns = false).
-  Variable es : list entry.
-  Hypothesis Hes : forall e, In e es <-> exists rel, In rel (walk [] (Dir L0)) /\ yields D rel e.
-  Hypothesis Hnc : no_clash es.
-
-  Definition Dq (q : list string) : path := (fst D, snd D ++ q).
-
-  Definition comp_ok (c : string) : Prop := c <> "" /\ has_dot c = false /\ c <> "__init__" /\ c <> "__pycache__".
-
-  Lemma listing_at_Dq : forall q Lq, get_node L0 q = Some (Dir Lq) -> listing_at U (Dq q) = Some Lq.
-  Proof.
-    intros q Lq H. unfold listing_at, node_at, Dq in *. simpl.
-    destruct (get_node (root U (fst D)) (snd D)) as [[ns pth|l]|] eqn:E; try discriminate.
-    inversion HD; subst l. rewrite (get_node_app_dir _ _ _ q E). rewrite H. reflexivity.
-  Qed.
-
-  Lemma node_at_Dq_file : forall q Lq fn, get_node L0 q = Some (Dir Lq) ->
-    node_at U (Dq (q ++ [fn])) = lookup_entry fn Lq.
-  Proof.
-    intros q Lq fn H. unfold node_at, Dq. simpl. unfold listing_at, node_at in HD.
-    destruct (get_node (root U (fst D)) (snd D)) as [[ns pth|l]|] eqn:E; try discriminate.
-    inversion HD; subst l. rewrite (get_node_app_dir _ _ _ (q ++ [fn]) E). rewrite get_node_snoc, H. reflexivity.
-  Qed.
-
-  Lemma sub_Dq : forall q c, sub (Dq q) c = Dq (q ++ [c]).
-  Proof. intros. unfold sub, Dq. simpl. rewrite app_assoc. reflexivity. Qed.
-
-  Lemma no_dots_app : forall (q : list string) n, existsb has_dot (q ++ [n]) = false ->
-    existsb has_dot q = false /\ has_dot n = false.
-  Proof. intros q n H. rewrite existsb_app in H. simpl in H. rewrite orb_false_r in H. apply orb_false_iff in H. auto. Qed.
-
-  (* C1: a file n.py in a reachable directory is yielded as the plain module q.n *)
-  Lemma module_file_entry : forall q Lq n,
-    reaches L0 q Lq -> has_file (n ++ ".py")%string Lq = true -> comp_ok n -> existsb has_dot q = false ->
-    exists e, In e es /\ entry_ok e = true /\ e_parts e = q ++ [n] /\ is_pyi e = false /\
-              e_abs e = Dq (q ++ [(n ++ ".py")%string]) /\ name_to_yield (e_rel e) = YMod (e_parts e).
-  Proof.
-    intros q Lq n Hr Hf (Hn1 & Hn2 & Hn3 & Hn4) Hq.
-    set (fn := (n ++ ".py")%string). set (rel := q ++ [fn]).
-    assert (Hy : name_to_yield rel = YMod (q ++ [n])).
-    { unfold name_to_yield, rel. rewrite last_last, List.removelast_last.
-      unfold pl_suffix, pl_stem, fn. rewrite pl_split_py by auto. simpl.
-      destruct (n =? "__init__") eqn:E. apply String.eqb_eq in E. contradiction. reflexivity. }
-    exists (mkE (q ++ [n]) D rel). split; [|split; [|split; [|split; [|split]]]]; simpl; auto.
-    - apply Hes. exists rel. split.
-      + apply (walk_resolves (Dir L0) [] rel Hdn). exists q, fn, Lq. split; auto. split; auto. split; auto.
-        unfold accepted, fn. rewrite os_ext_py by auto. reflexivity.
-      + unfold yields. rewrite Hy. reflexivity.
-    - unfold entry_ok. simpl. rewrite existsb_app. simpl. rewrite Hq, Hn2. simpl.
-      unfold static_loadable, path_suffix, e_abs. simpl. unfold rel. rewrite app_assoc, last_last.
-      unfold pl_suffix, fn. rewrite pl_split_py by auto. reflexivity.
-    - unfold is_pyi, path_suffix, e_abs. simpl. unfold rel. rewrite app_assoc, last_last.
-      unfold pl_suffix, fn. rewrite pl_split_py by auto. reflexivity.
-  Qed.
-
-  (* C2: an __init__.py in a reachable sub-directory n is yielded as the package q.n *)
-  Lemma init_file_entry : forall q Lq n Lm,
-    reaches L0 q Lq -> lookup_entry n Lq = Some (Dir Lm) -> has_file "__init__.py" Lm = true ->
-    comp_ok n -> existsb has_dot q = false ->
-    exists e, In e es /\ entry_ok e = true /\ e_parts e = q ++ [n] /\ is_pyi e = false /\
-              e_abs e = Dq (q ++ [n; "__init__.py"]) /\ name_to_yield (e_rel e) = YInit (e_parts e).
-  Proof.
-    intros q Lq n Lm [Hg Hpc] Hl Hf (Hn1 & Hn2 & Hn3 & Hn4) Hq.
-    set (rel := (q ++ [n]) ++ ["__init__.py"]).
-    assert (Hy : name_to_yield rel = YInit (q ++ [n])).
-    { unfold name_to_yield, rel. rewrite last_last, List.removelast_last. simpl.
-      rewrite app_length. simpl. rewrite app_length. simpl.
-      destruct (List.length q + 1 + 1 =? 1)%nat eqn:E; [apply Nat.eqb_eq in E; lia|]. reflexivity. }
-    exists (mkE (q ++ [n]) D rel). split; [|split; [|split; [|split; [|split]]]]; simpl; auto.
-    - apply Hes. exists rel. split.
-      + apply (walk_resolves (Dir L0) [] rel Hdn). exists (q ++ [n]), "__init__.py", Lm. split; auto. split; [|split; auto].
-        split. rewrite get_node_snoc, Hg. auto.
-        intro H. apply in_app_or in H. destruct H as [H|[H|[]]]; auto.
-      + unfold yields. rewrite Hy. reflexivity.
-    - unfold entry_ok. simpl. rewrite existsb_app. simpl. rewrite Hq, Hn2. simpl.
-      unfold static_loadable, path_suffix, e_abs. simpl. unfold rel. rewrite app_assoc, last_last. reflexivity.
-    - unfold is_pyi, path_suffix, e_abs. simpl. unfold rel. rewrite app_assoc, last_last. reflexivity.
-    - unfold e_abs, Dq. simpl. unfold rel. rewrite <- app_assoc. reflexivity.
-  Qed.
-
-  Definition stem_of (rel : list string) : string :=
-    let fn := last rel "" in
-    if pl_suffix fn =? ".py" then pl_stem fn else before_first_dot (pl_stem fn).
-
-  Lemma name_to_yield_init : forall rel p, name_to_yield rel = YInit p ->
-    p = removelast rel /\ stem_of rel = "__init__".
-  Proof.
-    intros rel p H. unfold name_to_yield in H. fold (stem_of rel) in H.
-    destruct (stem_of rel =? "__init__") eqn:E.
-    - apply String.eqb_eq in E. destruct (List.length rel =? 1)%nat; inversion H. auto.
-    - destruct (pl_suffix (last rel "") =? ".py"); [discriminate|]. destruct (stem_of rel =? ""); discriminate.
-  Qed.
-
-  Lemma name_to_yield_mod : forall rel p, name_to_yield rel = YMod p ->
-    p = removelast rel ++ [stem_of rel] /\ stem_of rel <> "__init__".
-  Proof.
-    intros rel p H. unfold name_to_yield in H. fold (stem_of rel) in H.
-    destruct (stem_of rel =? "__init__") eqn:E.
-    - destruct (List.length rel =? 1)%nat; discriminate.
-    - apply String.eqb_neq in E. destruct (pl_suffix (last rel "") =? ".py").
-      + inversion H. auto.
-      + destruct (stem_of rel =? ""); inversion H. auto.
-  Qed.
-
-  (* where a yielded entry lives *)
-  Lemma entry_shape : forall e q n, In e es -> e_parts e = q ++ [n] ->
-    e_base e = D /\
-    ((exists fn Lq, reaches L0 q Lq /\ has_file fn Lq = true /\ e_rel e = q ++ [fn] /\
-                    name_to_yield (e_rel e) = YMod (e_parts e) /\ stem_of (e_rel e) = n) \/
-     (exists fn Lq Lm, reaches L0 q Lq /\ lookup_entry n Lq = Some (Dir Lm) /\ n <> "__pycache__" /\ has_file fn Lm = true /\
-                       e_rel e = q ++ [n; fn] /\ name_to_yield (e_rel e) = YInit (e_parts e) /\ stem_of (e_rel e) = "__init__")).
-  Proof.
-    intros e q n He Hp. apply Hes in He. destruct He as (rel & Hw & Hy).
-    apply (walk_resolves (Dir L0) [] rel Hdn) in Hw. destruct Hw as (q' & fn & Lq' & Hrel & [Hg Hpc] & Hf & Ha).
-    simpl in Hrel. unfold yields in Hy.
-    destruct (name_to_yield rel) as [|parts|parts] eqn:Ey; try contradiction; subst e; simpl in *; split; auto.
-    - right. destruct (name_to_yield_init _ _ Ey) as [Hparts Hst]. subst rel. rewrite List.removelast_last in Hparts.
-      subst parts q'. rewrite get_node_snoc in Hg.
-      destruct (get_node L0 q) as [[a b|Lq]|] eqn:Eq; try discriminate.
-      exists fn, Lq, Lq'. repeat split; auto.
-      + intro H. apply Hpc. apply in_or_app. auto.
-      + intro H. apply Hpc. apply in_or_app. right. left. auto.
-      + rewrite <- app_assoc. reflexivity.
-    - left. destruct (name_to_yield_mod _ _ Ey) as [Hparts Hst]. subst rel. rewrite List.removelast_last in Hparts.
-      subst parts. apply app_inj_tail in Hparts. destruct Hparts as [-> Hn].
-      exists fn, Lq'. repeat split; auto.
-  Qed.
-
-  (* FileFinder in a source-form directory *)
-  Lemma ff_src : forall q Lq n, get_node L0 q = Some (Dir Lq) ->
-    file_finder U (Dq q) n =
-      match lookup_entry n Lq with
-      | Some (Dir Lm) =>
-          if has_file "__init__.py" Lm then FFPkg (Dq (q ++ [n; "__init__.py"])) (Dq (q ++ [n]))
-          else if has_file (n ++ ".py")%string Lq then FFMod (Dq (q ++ [(n ++ ".py")%string]))
-          else FFPortion (Dq (q ++ [n]))
-      | _ => if has_file (n ++ ".py")%string Lq then FFMod (Dq (q ++ [(n ++ ".py")%string])) else FFNothing
-      end.
-  Proof.
-    intros q Lq n Hg. unfold file_finder. rewrite (listing_at_Dq q Lq Hg).
-    destruct (Hsrc q Lq Hg) as [Hc _].
-    rewrite (first_file_with_src n Lq (Hc n)).
-    destruct (lookup_entry n Lq) as [[a b|Lm]|] eqn:El.
-    - destruct (has_file (n ++ ".py")%string Lq); auto. rewrite sub_Dq. reflexivity.
-    - assert (Hgm : get_node L0 (q ++ [n]) = Some (Dir Lm)) by (rewrite get_node_snoc, Hg; auto).
-      destruct (Hsrc _ _ Hgm) as [Hcm _].
-      rewrite (first_file_with_src "__init__" Lm (Hcm "__init__")).
-      change ("__init__" ++ ".py")%string with "__init__.py".
-      destruct (has_file "__init__.py" Lm).
-      + rewrite !sub_Dq. rewrite <- app_assoc. reflexivity.
-      + destruct (has_file (n ++ ".py")%string Lq); rewrite sub_Dq; reflexivity.
-    - destruct (has_file (n ++ ".py")%string Lq); auto. rewrite sub_Dq. reflexivity.
-  Qed.
-
-  Lemma py_find_single : forall n d,
-    py_find U n [d] =
-      match file_finder U d n with
-      | FFPkg init x => PyPkg init (if init_declares_ns U init then extend_path U [d] n x else [x])
-      | FFMod f => PyMod f
-      | FFPortion x => PyNs [x]
-      | FFNothing => PyNone
-      end.
-  Proof. intros. unfold py_find. simpl. destruct (file_finder U d n); reflexivity. Qed.
-
-  Lemma path_suffix_abs : forall e r fn, e_rel e = r ++ [fn] -> path_suffix (e_abs e) = pl_suffix fn.
-  Proof. intros e r fn H. unfold path_suffix, e_abs. simpl. rewrite H. rewrite app_assoc, last_last. reflexivity. Qed.
-
-  Lemma Dq_neq : forall q a b c, Dq (q ++ [a]) <> Dq (q ++ [b; c]).
-  Proof.
-    intros q a b c H. unfold Dq in H. inversion H as [H1]. apply app_inv_head in H1. apply app_inv_head in H1. discriminate.
-  Qed.
-
-  Lemma has_file_lookup : forall fn L, has_file fn L = true -> exists ns pth, lookup_entry fn L = Some (File ns pth).
-  Proof. intros fn L H. unfold has_file in H. destruct (lookup_entry fn L) as [[ns pth|?]|]; try discriminate. eauto. Qed.
-
-  Lemma reaches_fun : forall q L1 L2, reaches L0 q L1 -> reaches L0 q L2 -> L1 = L2.
-  Proof. intros q L1 L2 [H1 _] [H2 _]. congruence. Qed.
-
-  (* which file the loader keeps for the name q: the regular candidate if there is one, else a stub *)
-  Definition picked (q : list string) (p : path) : Prop :=
-    (exists a, In a es /\ entry_ok a = true /\ e_parts a = q /\ is_pyi a = false /\ e_abs a = p) \/
-    ((forall b, In b es -> entry_ok b = true -> e_parts b = q -> is_pyi b = true) /\
-     exists a, In a es /\ entry_ok a = true /\ e_parts a = q /\ e_abs a = p).
-
-  Lemma picked_entry : forall q p, picked q p ->
-    exists a, In a es /\ entry_ok a = true /\ e_parts a = q /\ e_abs a = p /\
-              (is_pyi a = true -> forall b, In b es -> entry_ok b = true -> e_parts b = q -> is_pyi b = true).
-  Proof.
-    intros q p [(a & H1 & H2 & H3 & H4 & H5)|[Hall (a & H1 & H2 & H3 & H5)]]; exists a; repeat split; auto.
-    intro. congruence.
-  Qed.
-
-  (* a regular candidate for q forces the kept file to be that candidate *)
-  Lemma picked_regular : forall q p e, picked q p -> In e es -> entry_ok e = true -> e_parts e = q -> is_pyi e = false -> p = e_abs e.
-  Proof.
-    intros q p e [(a & H1 & H2 & H3 & H4 & H5)|[Hall _]] He Hok Hp Hn.
-    - subst p. apply Hnc; auto; congruence.
-    - rewrite (Hall e He Hok Hp) in Hn. discriminate.
-  Qed.
-
-  Lemma leaf_agrees : forall q Lq n f,
-    reaches L0 q Lq -> picked (q ++ [n]) f -> comp_ok n ->
-    agrees (MFile f) (py_find U n [Dq q]) = true.
-  Proof.
-    intros q Lq n f Hr Hpick Hn.
-    destruct (picked_entry _ _ Hpick) as (a & Ha & Hok & Hp & Hf0 & Hall). subst f.
-    assert (Hdots : existsb has_dot q = false).
-    { unfold entry_ok in Hok. apply andb_true_iff in Hok. destruct Hok as [Hd _]. apply negb_true_iff in Hd.
-      rewrite Hp in Hd. apply no_dots_app in Hd. tauto. }
-    assert (K1 : has_file (n ++ ".py")%string Lq = true -> exists e, In e es /\ entry_ok e = true /\ e_parts e = q ++ [n] /\
-                   is_pyi e = false /\ e_abs e = Dq (q ++ [(n ++ ".py")%string])).
-    { intro Hf. destruct (module_file_entry q Lq n Hr Hf Hn Hdots) as (e & H1 & H2 & H3 & H4 & H5 & _). eauto 8. }
-    assert (K2 : forall Lm, lookup_entry n Lq = Some (Dir Lm) -> has_file "__init__.py" Lm = true ->
-                 exists e, In e es /\ entry_ok e = true /\ e_parts e = q ++ [n] /\ is_pyi e = false /\
-                           e_abs e = Dq (q ++ [n; "__init__.py"])).
-    { intros Lm Hl Hf. destruct (init_file_entry q Lq n Lm Hr Hl Hf Hn Hdots) as (e & H1 & H2 & H3 & H4 & H5 & _). eauto 8. }
-    rewrite py_find_single. rewrite (ff_src q Lq n (proj1 Hr)).
-    destruct (entry_shape a q n Ha Hp) as [Hbase [(fn & Lq' & Hr' & Hf & Hrel & Hy & Hst)|(fn & Lq' & Lm & Hr' & Hl & Hnpc & Hf & Hrel & Hy & Hst)]];
-      pose proof (reaches_fun _ _ _ Hr Hr'); subst Lq'.
-    - (* a is the module file fn of the directory *)
-      pose proof (path_suffix_abs a q fn Hrel) as Hsuf.
-      assert (Habs : e_abs a = Dq (q ++ [fn])) by (unfold e_abs, Dq; rewrite Hbase, Hrel; reflexivity).
-      pose proof Hok as Hok0. unfold entry_ok in Hok. apply andb_true_iff in Hok. destruct Hok as [_ Hload]. unfold static_loadable in Hload. rewrite Hsuf in Hload.
-      unfold stem_of in Hst. rewrite Hrel, last_last in Hst.
-      destruct (pl_suffix fn =? ".py") eqn:Epy.
-      + apply String.eqb_eq in Epy.
-        assert (Hfn : fn = (n ++ ".py")%string) by (rewrite <- (pl_split_app fn), Hst, Epy; reflexivity).
-        subst fn.
-        assert (Hnp : is_pyi a = false) by (unfold is_pyi; rewrite Hsuf, Epy; reflexivity).
-        rewrite Hf.
-        destruct (lookup_entry n Lq) as [[x y|Lm]|] eqn:El; simpl; try (rewrite Habs; apply path_eqb_refl).
-        destruct (has_file "__init__.py" Lm) eqn:Ei; simpl; try (rewrite Habs; apply path_eqb_refl).
-        exfalso. destruct (K2 Lm eq_refl Ei) as (e & H1 & H2 & H3 & H4 & H5).
-        assert (e_abs a = e_abs e) by (apply Hnc; auto; congruence).
-        rewrite Habs, H5 in H. eapply Dq_neq; eauto.
-      + simpl in Hload.
-        assert (Hpyi : is_pyi a = true) by (unfold is_pyi; rewrite Hsuf; auto).
-        specialize (Hall Hpyi).
-        assert (N1 : has_file (n ++ ".py")%string Lq = false).
-        { destruct (has_file (n ++ ".py")%string Lq) eqn:E; auto. destruct (K1 eq_refl) as (e & H1 & H2 & H3 & H4 & _).
-          rewrite (Hall e H1 H2 H3) in H4. discriminate. }
-        rewrite N1.
-        assert (Hres : path_suffix (e_abs a) =? ".pyi" = true) by (rewrite Hsuf; auto).
-        destruct (lookup_entry n Lq) as [[x y|Lm]|] eqn:El; simpl; auto.
-        destruct (has_file "__init__.py" Lm) eqn:Ei; simpl; auto.
-        exfalso. destruct (K2 Lm eq_refl Ei) as (e & H1 & H2 & H3 & H4 & _). rewrite (Hall e H1 H2 H3) in H4. discriminate.
-    - (* a is an __init__ file of the sub-directory n *)
-      assert (Hrel' : e_rel a = (q ++ [n]) ++ [fn]) by (rewrite Hrel, <- app_assoc; reflexivity).
-      pose proof (path_suffix_abs a (q ++ [n]) fn Hrel') as Hsuf.
-      assert (Habs : e_abs a = Dq (q ++ [n; fn])) by (unfold e_abs, Dq; rewrite Hbase, Hrel; reflexivity).
-      pose proof Hok as Hok0. unfold entry_ok in Hok. apply andb_true_iff in Hok. destruct Hok as [_ Hload]. unfold static_loadable in Hload. rewrite Hsuf in Hload.
-      unfold stem_of in Hst. rewrite Hrel', last_last in Hst.
-      rewrite Hl.
-      destruct (pl_suffix fn =? ".py") eqn:Epy.
-      + apply String.eqb_eq in Epy.
-        assert (Hfn : fn = "__init__.py") by (rewrite <- (pl_split_app fn), Hst, Epy; reflexivity).
-        subst fn. rewrite Hf. simpl. rewrite Habs. apply path_eqb_refl.
-      + simpl in Hload.
-        assert (Hpyi : is_pyi a = true) by (unfold is_pyi; rewrite Hsuf; auto).
-        specialize (Hall Hpyi).
-        assert (N1 : has_file (n ++ ".py")%string Lq = false).
-        { destruct (has_file (n ++ ".py")%string Lq) eqn:E; auto. destruct (K1 eq_refl) as (e & H1 & H2 & H3 & H4 & _).
-          rewrite (Hall e H1 H2 H3) in H4. discriminate. }
-        assert (N2 : has_file "__init__.py" Lm = false).
-        { destruct (has_file "__init__.py" Lm) eqn:E; auto. destruct (K2 Lm Hl E) as (e & H1 & H2 & H3 & H4 & _).
-          rewrite (Hall e H1 H2 H3) in H4. discriminate. }
-        rewrite N1, N2. simpl. rewrite Hsuf. auto.
-  Qed.
-
-  Lemma step_descend : forall q Lq m Lm r0 rest,
-    get_node L0 q = Some (Dir Lq) -> lookup_entry m Lq = Some (Dir Lm) ->
-    (has_file "__init__.py" Lm = false -> has_file (m ++ ".py")%string Lq = false) ->
-    py_import U [Dq q] (m :: r0 :: rest) = py_import U [Dq (q ++ [m])] (r0 :: rest).
-  Proof.
-    intros q Lq m Lm r0 rest Hg Hl Hno.
-    change (py_import U [Dq q] (m :: r0 :: rest)) with
-      (match py_find U m [Dq q] with
-       | PyPkg init locs => if executable init then py_import U locs (r0 :: rest) else PyErr
-       | PyNs ds => py_import U ds (r0 :: rest)
-       | PyMod f => if executable f then PyNone else PyErr
-       | PyNone => PyNone
-       | PyErr => PyErr
-       end).
-    rewrite py_find_single, (ff_src q Lq m Hg), Hl.
-    destruct (has_file "__init__.py" Lm) eqn:Ei.
-    - assert (Hgm : get_node L0 (q ++ [m]) = Some (Dir Lm)) by (rewrite get_node_snoc, Hg; auto).
-      destruct (has_file_lookup _ _ Ei) as (ns & pth & Hli).
-      destruct (Hsrc _ _ Hgm) as [_ Hdecl]. pose proof (Hdecl ns pth Hli). subst ns.
-      assert (Hnd : init_declares_ns U (Dq (q ++ [m; "__init__.py"])) = false).
-      { unfold init_declares_ns. replace (q ++ [m; "__init__.py"]) with ((q ++ [m]) ++ ["__init__.py"]) by (rewrite <- app_assoc; reflexivity).
-        rewrite (node_at_Dq_file (q ++ [m]) Lm "__init__.py" Hgm), Hli. reflexivity. }
-      rewrite Hnd.
-      assert (Hex : executable (Dq (q ++ [m; "__init__.py"])) = true).
-      { unfold executable, path_suffix, Dq. simpl. replace (snd D ++ q ++ [m; "__init__.py"]) with ((snd D ++ q ++ [m]) ++ ["__init__.py"]).
-        rewrite last_last. reflexivity. rewrite <- !app_assoc. reflexivity. }
-      rewrite Hex. reflexivity.
-    - rewrite (Hno eq_refl). reflexivity.
-  Qed.
-
-  (* strings: the name before the first dot of  stem ++ ".py" / stem ++ ".pyi" *)
-  Lemma bfd_app_dot : forall a r, before_first_dot (a ++ String "."%char r)%string = before_first_dot a.
-  Proof.
-    induction a as [|c a IH]; intros r; simpl. reflexivity.
-    destruct (is_dot c); auto. f_equal. apply IH.
-  Qed.
-
-  Lemma bfd_nodot : forall a, has_dot a = false -> before_first_dot a = a.
-  Proof.
-    induction a as [|c a IH]; simpl; intro H; auto. apply orb_false_iff in H. destruct H as [H1 H2].
-    rewrite H1. f_equal. auto.
-  Qed.
-
-  (* an entry yielded as a plain module is not kept as an __init__ module *)
-  Lemma ymod_not_init : forall x q m, In x es -> entry_ok x = true -> e_parts x = q ++ [m] ->
-    name_to_yield (e_rel x) = YMod (e_parts x) -> init_path (e_abs x) = false.
-  Proof.
-    intros x q m Hx Hok Hp Hy.
-    destruct (name_to_yield_mod _ _ Hy) as [Hparts Hne].
-    destruct (entry_shape x q m Hx Hp) as [_ [(fn & Lq & Hr & Hf & Hrel & _ & Hst)|(fn & Lq & Lm & _ & _ & _ & _ & _ & Hy2 & _)]];
-      [|rewrite Hy in Hy2; discriminate].
-    unfold init_path, is_init_name, e_abs. simpl. rewrite Hrel, app_assoc, last_last.
-    pose proof (path_suffix_abs x q fn Hrel) as Hsuf.
-    unfold entry_ok in Hok. apply andb_true_iff in Hok. destruct Hok as [Hd Hload]. apply negb_true_iff in Hd.
-    rewrite Hp in Hd. apply no_dots_app in Hd. destruct Hd as [_ Hdm].
-    unfold static_loadable in Hload. rewrite Hsuf in Hload.
-    unfold stem_of in Hst, Hne. rewrite Hrel, last_last in Hst, Hne.
-    rewrite <- (pl_split_app fn).
-    destruct (pl_suffix fn =? ".py") eqn:Epy.
-    - apply String.eqb_eq in Epy. rewrite Epy. change ".py" with (String "."%char "py"). rewrite bfd_app_dot.
-      rewrite Hst, bfd_nodot by auto. apply String.eqb_neq. rewrite <- Hst. auto.
-    - simpl in Hload. apply String.eqb_eq in Hload. rewrite Hload. change ".pyi" with (String "."%char "pyi"). rewrite bfd_app_dot.
-      apply String.eqb_neq. auto.
-  Qed.
-
-  Lemma descend_agrees : forall rest q Lq f,
-    reaches L0 q Lq -> rest <> [] -> picked (q ++ rest) f ->
-    (forall c, In c rest -> comp_ok c) ->
-    (forall q' m post, q ++ rest = q' ++ m :: post -> post <> [] ->
-                       exists p, init_path p = true /\ picked (q' ++ [m]) p) ->
-    agrees (MFile f) (py_import U [Dq q] rest) = true.
-  Proof.
-    induction rest as [|m rest IH]; intros q Lq f Hr Hne Hpick Hc Hpre. congruence.
-    destruct rest as [|r0 rest'].
-    - change (py_import U [Dq q] [m]) with (py_find U m [Dq q]).
-      eapply leaf_agrees; eauto. apply Hc. left. auto.
-    - destruct (picked_entry _ _ Hpick) as (a & Ha & Hok & Hp & _ & _).
-      assert (Hdots : existsb has_dot q = false).
-      { unfold entry_ok in Hok. apply andb_true_iff in Hok. destruct Hok as [Hd _]. apply negb_true_iff in Hd.
-        rewrite Hp, existsb_app in Hd. apply orb_false_iff in Hd. tauto. }
-      destruct (Hpre q m (r0 :: rest') eq_refl) as (p & Hinit & Hpm). discriminate.
-      destruct (picked_entry _ _ Hpm) as (x & Hx & Hxok & Hxp & Hxa & _).
-      destruct (entry_shape x q m Hx Hxp) as [_ [(fn & Lq' & Hr' & Hf & Hrel & Hy & Hst)|(fn & Lq' & Lm & Hr' & Hl & Hnpc & Hf & Hrel & Hy & Hst)]].
-      + exfalso. rewrite <- Hxa in Hinit. rewrite (ymod_not_init x q m Hx Hxok Hxp Hy) in Hinit. discriminate.
-      + pose proof (reaches_fun _ _ _ Hr Hr'). subst Lq'.
-        rewrite (step_descend q Lq m Lm r0 rest' (proj1 Hr) Hl).
-        * apply (IH (q ++ [m]) Lm f); auto.
-          -- split. rewrite get_node_snoc, (proj1 Hr). auto.
-             intro H. apply in_app_or in H. destruct H as [H|[H|[]]]; auto. destruct Hr as [_ Hpc]. auto.
-          -- discriminate.
-          -- rewrite <- app_assoc. exact Hpick.
-          -- intros c Hcin. apply Hc. right. auto.
-          -- intros q' m' post Heq Hpost. apply (Hpre q' m' post); auto. rewrite <- Heq, <- app_assoc. reflexivity.
-        * intros _. destruct (has_file (m ++ ".py")%string Lq) eqn:E; auto. exfalso.
-          destruct (module_file_entry q Lq m Hr E (Hc m (or_introl eq_refl)) Hdots) as (e & H1 & H2 & H3 & H4 & H5 & H6).
-          pose proof (picked_regular _ _ e Hpm H1 H2 H3 H4) as Hpe. rewrite Hpe in Hinit.
-          rewrite (ymod_not_init e q m H1 H2 H3 H6) in Hinit. discriminate.
-  Qed.
-End Importable.
-
-Lemma chain_prefix : forall E todo cur, chain E cur todo = true ->
-  forall t1 x t2, todo = t1 ++ x :: t2 -> init_at E (cur ++ t1 ++ [x]) = true.
-Proof.
-  induction todo as [|p r IH]; intros cur H t1 x t2 Heq. destruct t1; discriminate.
-  simpl in H. apply andb_true_iff in H. destruct H as [H1 H2].
-  destruct t1 as [|y t1]; simpl in Heq; inversion Heq; subst.
-  - simpl. auto.
-  - specialize (IH (cur ++ [y]) H2 t1 x t2 eq_refl). rewrite <- app_assoc in IH. simpl in IH. auto.
-Qed.
-
-Lemma removelast_app_cons : forall (q : list string) m post, post <> [] ->
-  removelast (q ++ m :: post) = q ++ m :: removelast post.
-Proof.
-  intros q m post H. rewrite removelast_app by discriminate. f_equal.
-  simpl. destruct post; [congruence|reflexivity].
-Qed.
-
-(* Every module the static loader puts below a regular package is the module CPython imports at that dotted name
-   from that file, or is stub-only -- on source-form package trees in which no two files claim one module name. *)
-Theorem loaded_importable_regular :
-  forall U D L0 es top k f,
-  listing_at U D = Some L0 -> deep_nodup L0 ->
-  (forall q Lq, get_node L0 q = Some (Dir Lq) ->
-     (forall n s, In s compiled_suffixes -> has_file (n ++ s)%string Lq = false) /\
-     (forall ns pth, lookup_entry "__init__.py" Lq = Some (File ns pth) -> ns = false)) ->
-  (forall e, In e es <-> exists rel, In rel (walk [] (Dir L0)) /\ yields D rel e) ->
-  no_clash es ->
-  lookup_m k (run top (depth_sort es)) = Some (MFile f) -> k <> [] ->
-  (forall c, In c k -> c <> "" /\ c <> "__init__" /\ c <> "__pycache__") ->
-  agrees (MFile f) (py_import U [D] k) = true.
-Proof.
-  intros U D L0 es top k f HD Hdn Hsrc Hes Hnc Hlk Hk Hcomp.
-  assert (Hne : forall e, In e (depth_sort es) -> e_parts e <> []).
-  { intros e He. apply (proj1 (depth_sort_In _ _)) in He. apply Hes in He. destruct He as (rel & Hw & Hy).
-    apply (yields_parts_nonempty D rel e); auto. apply (walk_nonempty (Dir L0) [] rel Hw). }
-  destruct (run_spec top (depth_sort es) (depth_sort_sorted es) Hne) as [_ Hspec].
-  rewrite Hspec in Hlk. rewrite spec_lookup_ne in Hlk by auto.
-  destruct (chain (depth_sort es) [] (removelast k)) eqn:Hch; [|discriminate].
-  destruct (pickseq (cands k (depth_sort es))) as [p|] eqn:Hpick; [|discriminate].
-  simpl in Hlk. inversion Hlk; subst p. clear Hlk.
-  (* from the merge of the candidates to the set-level description *)
-  assert (Hpicked : forall q p, pickseq (cands q (depth_sort es)) = Some p -> picked es q p).
-  { intros q p Hp.
-    assert (Hcompat : compat (cands q (depth_sort es))).
-    { intros x y Hx Hy Hpi. unfold cands in Hx, Hy. apply filter_In in Hx, Hy.
-      destruct Hx as [Hx Hcx], Hy as [Hy Hcy]. unfold cand in Hcx, Hcy.
-      apply andb_true_iff in Hcx, Hcy. destruct Hcx as [Px Ox], Hcy as [Py Oy].
-      apply lstr_eqb_eq in Px, Py. apply (proj1 (depth_sort_In _ _)) in Hx. apply (proj1 (depth_sort_In _ _)) in Hy.
-      apply Hnc; auto. congruence. }
-    assert (Hin : forall a, In a (cands q (depth_sort es)) <-> In a es /\ entry_ok a = true /\ e_parts a = q).
-    { intro a. unfold cands. rewrite filter_In, depth_sort_In. unfold cand. rewrite andb_true_iff, lstr_eqb_eq. tauto. }
-    destruct (pickseq_sound _ _ Hcompat Hp) as [(a & Ha & Hap & Hao)|[Hall (a & Ha & Hao)]].
-    - left. apply Hin in Ha. destruct Ha as (H1 & H2 & H3). exists a. auto.
-    - right. split.
-      + intros b Hb Hbo Hbp. apply Hall. apply Hin. auto.
-      + apply Hin in Ha. destruct Ha as (H1 & H2 & H3). exists a. auto. }
-  replace D with (Dq D []) by (unfold Dq; destruct D; simpl; rewrite app_nil_r; reflexivity).
-  apply (descend_agrees U D L0 HD Hdn Hsrc es Hes Hnc k [] L0 f); auto.
-  - split; simpl; auto.
-  - intros c Hc.
-    destruct (picked_entry es _ _ (Hpicked k f Hpick)) as (a & Ha & Hok & Hp & _ & _).
-    assert (has_dot c = false).
-    { unfold entry_ok in Hok. apply andb_true_iff in Hok. destruct Hok as [Hd _]. apply negb_true_iff in Hd.
-      rewrite Hp in Hd. destruct (has_dot c) eqn:E; auto.
-      assert (existsb has_dot k = true) by (apply existsb_exists; exists c; auto). congruence. }
-    destruct (Hcomp c Hc) as (H1 & H2 & H3). unfold comp_ok. repeat split; auto.
-  - intros q' m post Heq Hpost. simpl in Heq.
-    assert (Hrl : removelast k = q' ++ m :: removelast post) by (rewrite Heq; apply removelast_app_cons; auto).
-    pose proof (chain_prefix _ _ _ Hch q' m (removelast post) Hrl) as Hi. simpl in Hi.
-    unfold init_at in Hi. destruct (pickseq (cands (q' ++ [m]) (depth_sort es))) as [p|] eqn:Ep; [|discriminate].
-    exists p. split; auto.
-Qed.
-
-(* ------------------------------------------------------------------------------------------------------------- *)
-(* Part I.  Decidable forms of the hypotheses, and the theorem stated on the model's own load of a regular package *)
-
-Lemma mem_str_In : forall x l, mem_str x l = true <-> In x l.
-Proof.
-  intros. unfold mem_str. rewrite existsb_exists. split.
-  - intros (y & Hy & E). apply String.eqb_eq in E. subst. auto.
-  - intro H. exists x. split; auto. apply String.eqb_refl.
-Qed.
-
-Lemma nodupb_sound : forall l, nodupb l = true -> NoDup l.
-Proof.
-  induction l; simpl; intro H. constructor. apply andb_true_iff in H. destruct H as [H1 H2].
-  constructor; auto. intro Hin. apply mem_str_In in Hin. rewrite Hin in H1. discriminate.
-Qed.
-
-Lemma strip_suffix_app : forall n s, strip_suffix (n ++ s)%string s <> None.
-Proof.
-  assert (Hrefl : forall s, strip_suffix s s <> None).
-  { intro s. destruct s; cbn [strip_suffix]; rewrite String.eqb_refl; intro H; discriminate. }
-  induction n as [|c r IH]; intros s. apply Hrefl.
-  change (String c r ++ s)%string with (String c (r ++ s)). cbn [strip_suffix].
-  destruct (String c (r ++ s) =? s). intro H; discriminate.
-  specialize (IH s). destruct (strip_suffix (r ++ s) s); [intro H; discriminate|congruence].
-Qed.
-
-Lemma srcb_sound : forall es, NoDup (map fst es) -> srcb es = true ->
-  (forall n s, In s compiled_suffixes -> has_file (n ++ s)%string es = false) /\
-  (forall ns pth, lookup_entry "__init__.py" es = Some (File ns pth) -> ns = false).
-Proof.
-  intros es Hnd H. unfold srcb in H. apply andb_true_iff in H. destruct H as [H1 H2]. split.
-  - intros n s Hs. unfold has_file. destruct (lookup_entry (n ++ s)%string es) as [[a b|?]|] eqn:E; auto.
-    exfalso. apply lookup_entry_In_iff in E; auto. rewrite forallb_forall in H1. specialize (H1 _ E). cbn [snd fst is_file negb orb] in H1.
-    rewrite forallb_forall in H1. specialize (H1 s Hs). pose proof (strip_suffix_app n s).
-    destruct (strip_suffix (n ++ s) s); [discriminate|congruence].
-  - intros ns pth E. rewrite E in H2. destruct ns; [discriminate|reflexivity].
-Qed.
-
-Lemma tree_okb_deep : forall q L Lq, tree_okb (Dir L) = true -> get_node L q = Some (Dir Lq) -> tree_okb (Dir Lq) = true.
-Proof.
-  induction q as [|c r IH]; intros L Lq H Hg; simpl in Hg.
-  - inversion Hg; subst. auto.
-  - destruct (lookup_entry c L) as [[a b|L']|] eqn:E; try discriminate. destruct r; discriminate.
-    destruct (lookup_entry_In _ _ _ E) as [k Hk].
-    simpl in H. apply andb_true_iff in H. destruct H as [_ H]. rewrite forallb_forall in H. specialize (H _ Hk). simpl in H.
-    eapply IH; eauto.
-Qed.
-
-Lemma tree_okb_hyps : forall L, tree_okb (Dir L) = true ->
-  deep_nodup L /\
-  (forall q Lq, get_node L q = Some (Dir Lq) ->
-     (forall n s, In s compiled_suffixes -> has_file (n ++ s)%string Lq = false) /\
-     (forall ns pth, lookup_entry "__init__.py" Lq = Some (File ns pth) -> ns = false)).
-Proof.
-  intros L H. split.
-  - intros q Lq Hg. pose proof (tree_okb_deep q L Lq H Hg) as Hq. simpl in Hq.
-    apply andb_true_iff in Hq. destruct Hq as [Hq _]. apply andb_true_iff in Hq. destruct Hq as [Hq _]. apply nodupb_sound. auto.
-  - intros q Lq Hg. pose proof (tree_okb_deep q L Lq H Hg) as Hq. simpl in Hq.
-    apply andb_true_iff in Hq. destruct Hq as [Hq _]. apply andb_true_iff in Hq. destruct Hq as [Hn Hs].
-    apply srcb_sound; auto. apply nodupb_sound. auto.
-Qed.
-
-Theorem loaded_importable_regular_checked :
-  forall U i dirc st M,
-  in_domain U i dirc = true ->
-  load_found false U (FPkg (i, dirc ++ ["__init__.py"]) st) = LOk M ->
-  forall k f, lookup_m k M = Some (MFile f) -> key_okb k = true ->
-  agrees (MFile f) (py_import U [(i, dirc)] k) = true.
-Proof.
-  intros U i dirc st M Hdom Hload k f Hlk Hkey.
-  unfold in_domain in Hdom.
-  destruct (node_at U (i, dirc)) as [[a b|L0]|] eqn:En; try discriminate.
-  destruct (iter_regular U (i, dirc ++ ["__init__.py"])) as [es|x] eqn:Ei; try discriminate.
-  apply andb_true_iff in Hdom. destruct Hdom as [Htree Hnc].
-  destruct (tree_okb_hyps L0 Htree) as [Hdn Hsrc].
-  unfold load_found in Hload. rewrite Ei in Hload.
-  destruct (node_at U (i, dirc ++ ["__init__.py"])) as [[a b|?]|]; try discriminate.
-  inversion Hload; subst M. clear Hload.
-  unfold key_okb in Hkey. apply andb_true_iff in Hkey. destruct Hkey as [Hk1 Hk2].
-  assert (Hes : forall e, In e es <-> exists rel, In rel (walk [] (Dir L0)) /\ yields (i, dirc) rel e).
-  { unfold iter_regular, start_dir in Ei. simpl in Ei. rewrite last_last in Ei. simpl in Ei.
-    rewrite List.removelast_last in Ei.
-    pose proof (iter_files_noskip (i, dirc) (portion_files U (i, dirc)) []) as Hn.
-    destruct (iter_files (i, dirc) [] (portion_files U (i, dirc)) []) as [[es' s]|x]; try discriminate.
-    inversion Ei; subst es'. unfold portion_files in Hn. rewrite En in Hn. auto. }
-  apply (loaded_importable_regular U (i, dirc) L0 es (i, dirc ++ ["__init__.py"]) k f); auto.
-  - unfold listing_at. rewrite En. reflexivity.
-  - apply no_clashb_sound. auto.
-  - destruct k; [discriminate|congruence].
-  - intros c Hc. rewrite forallb_forall in Hk2. specialize (Hk2 c Hc).
-    apply andb_true_iff in Hk2. destruct Hk2 as [Hk2 H3]. apply andb_true_iff in Hk2. destruct Hk2 as [H1 H2].
-    apply negb_true_iff in H1, H2, H3. apply String.eqb_neq in H1, H2, H3. auto.
-Qed.
-
-(* non-vacuity: an ordinary nested package is inside the domain, is loaded, and the conclusion is computed to hold *)
-Example in_domain_example : in_domain U_ok2 1 ["aa"] = true.
-Proof. vm_compute. reflexivity. Qed.
-Example loaded_importable_example :
-  exists M, load_found false U_ok2 (FPkg (1, ["aa"; "__init__.py"]) None) = LOk M /\
-            lookup_m ["sub"; "x"] M = Some (MFile (1, ["aa"; "sub"; "x.py"])) /\
-            agrees (MFile (1, ["aa"; "sub"; "x.py"])) (py_import U_ok2 [(1, ["aa"])] ["sub"; "x"]) = true /\
-            lookup_m ["m"] M = Some (MFile (1, ["aa"; "m.py"])).
-Proof. eexists. split. vm_compute. reflexivity. repeat split; vm_compute; reflexivity. Qed.
